@@ -9,6 +9,7 @@ import SyslModel.Path.Proto
 import SyslModel.Closure.Proto
 import SyslModel.Indent.Proto
 import SyslModel.DbScript.Proto
+import SyslModel.Ints.Proto
 
 open Lean (Json)
 open SyslModel
@@ -18,6 +19,7 @@ def dispatch (op : String) (j : Json) : Option Json :=
   else if op.startsWith "closure." then Closure.handle op j
   else if op.startsWith "indent." then Indent.handle op j
   else if op.startsWith "db." then DbScript.handle op j
+  else if op.startsWith "ints." then Ints.handle op j
   else none
 
 def handleLine (line : String) : String :=
